@@ -237,3 +237,28 @@ def diff_trees(a, b, path=""):
     if type(a) is not type(b) or a != b:
         return "%s: %r vs %r" % (path, a, b)
     return None
+
+
+@st.composite
+def layout_cases(draw):
+    """same shape as decl_cases, over gen.layout_families; inputs: encodings of drawn trees when the layout has no overlap, random
+    strings long enough for every position otherwise"""
+    fam = draw(gen.layout_families())
+    cg = draw(cg_options())
+    trees, inputs = [], []
+    for _ in range(2):
+        vals = draw(gen.value_trees(fam))
+        if vals is None:
+            continue
+        trees.append(vals)
+        try:
+            raw = gen.raw_from_values(draw, fam, vals)
+            inputs.append(("valid", raw + draw(st.binary(max_size=2)), 0))
+            if not uses_begins(fam):
+                pre = draw(st.binary(min_size=1, max_size=3))
+                inputs.append(("valid_off", pre + raw, len(pre)))
+        except (ir.Overlap, ir.Unspecified, ir.EncodeError):
+            pass
+    for _ in range(2):
+        inputs.append(("random-long", draw(st.binary(min_size=28, max_size=36)), 0))
+    return {"fam": fam, "cg": cg, "trees": trees, "inputs": inputs}
